@@ -117,6 +117,43 @@ def check_aspire_level(chk, r, n):
                      f"Aspire.n_likelihood_evaluations = {a.n_likelihood_evaluations}, points = {t.points_like}", {"clause": "count", "level": "aspire"})
 
 
+def check_aspire_level_aborted(chk):
+    """the top-level counter after a run that did NOT return (the likelihood raised in the middle; Ctrl-C) - also as the second analysis of an
+    object whose first one finished: it is the number of points the likelihood of the LAST run was asked, not nothing and not the previous total"""
+    from .. import aspire_level as al
+
+    for sampler, kw in (("importance", {}), ("smc", {"sampler_kwargs": {"n_steps": 2}, "adaptive": False, "n_steps": 3})):
+        for first_completes in (False, True):
+            for kind in ("exception", "interrupt"):
+                t = smcrun.Target(2)
+                t.fault_exc = smcrun.FaultInterrupt if kind == "interrupt" else smcrun.Fault
+                a = al.make_aspire(t, dims=2)
+                a.fit(al.training_samples(2, 3))
+                case = {"level": "aspire_aborted", "sampler": sampler, "a_completed_analysis_first": first_completes, "fault": kind}
+                chk.count("aspire_level_aborted")
+                chk.case(None, json.dumps(case))
+                try:
+                    if first_completes:
+                        with al.orng_seed(1):
+                            a.sample_posterior(n_samples=30, sampler=sampler, **kw)
+                    pts0, calls0 = t.points_like, t.n_like
+                    t.fault_at = calls0 + (0 if sampler == "importance" else 2)
+                    try:
+                        with al.orng_seed(2):
+                            a.sample_posterior(n_samples=14, sampler=sampler, **kw)
+                        continue          # the planted fault was not reached
+                    except smcrun.FAULTS:
+                        pass
+                    asked = t.points_like - pts0
+                    got = a.n_likelihood_evaluations
+                    if got is None or int(got) != asked:
+                        chk.fail("reported evaluations = points the likelihood was asked to evaluate", case,
+                                 f"after a {sampler} run that died inside a likelihood call: Aspire.n_likelihood_evaluations = {got!r}, the likelihood was asked for {asked} points in that run"
+                                 + (f" (the earlier, completed analysis asked {pts0})" if first_completes else ""), {"clause": "count", "level": "aspire_aborted"})
+                except Exception as exc:   # noqa
+                    chk.fail("run total", case, repr(exc)[:300], {"clause": "raise", "level": "aspire_aborted"})
+
+
 def check_convert_to_samples(chk):
     """the call site `Aspire.convert_to_samples(x, evaluate=True)` (prior, then likelihood on the set that carries it).  On the pinned tree the
     method cannot get that far (`samples.xp.to_device` does not exist in the array namespaces: AttributeError before the prior is stored) - that is
@@ -278,6 +315,7 @@ def run(chk: core.Check):
         check_run(chk, cfg, [], [])
     check_nonfinite_draws(chk)
     check_convert_to_samples(chk)
+    check_aspire_level_aborted(chk)
     check_aspire_level(chk, r, 9 if quick else 90)
     check_several_objects(chk, r, 14 if quick else 56)
     for (case, reported, like_sizes), rep in zip(keep, drv.batch(lines)):
